@@ -1,6 +1,7 @@
 """C02 — row aggregates survive the agent -> aggregator transfer unchanged (DESIGN §6 C02)."""
 HARNESS = "./cmd/verif-c02"
 DRIVER = "drv_c02"
+NCORPUS = 5  # scripted rows in cmd/verif-c02 corpus()
 
 
 def run(c):
@@ -23,7 +24,11 @@ def run(c):
     drv = c.driver(DRIVER)
     binary = c.go_build(HARNESS)
     if binary and drv:
-        rc, out = c.go_run(binary, [f"-n={c.n(4000, 100000)}"], timeout=1500)
+        # minimised past failures first (F1: counter-only + value event; F12: empty min host next to a tagged max host)
+        rc, out = c.go_run(binary, ["-mode=corpus", f"-n={NCORPUS}"])
+        c.harness_ok(rc, out, "verif-c02 corpus")
+        c.correspond(out, drv, label="corpus")
+        rc, out = c.go_run(binary, [f"-n={c.n(4000, 150000)}"], timeout=1500)
         c.harness_ok(rc, out, "verif-c02")
         c.correspond(out, drv)
 
@@ -48,7 +53,8 @@ META = {
              "diffing the row after every event, the decoded TL item and the aggregator row."),
     "note": ("Theorems are about the tree with fixes/C02-compact-sum.diff and fixes/C02-empty-host.diff applied (model variant .fixed); the pinned-tree "
              "behaviour is kept as variant .repo with `decide` counterexamples. Trusted: Lean kernel, exact arithmetic instead of float64, tdigest and "
-             "ChUnique internals, TL codec, the model<->code correspondence on generated rows. Partial: rows of a percentile metric that hold several "
-             "distinct values but no digest (unique events) get an implicit centroid at min — the property does not define their centroids, excluded by hypothesis."),
+             "ChUnique internals, TL codec, the model<->code correspondence on generated rows. Reading: a value without digest counts as the single centroid (min, count); for a percentile row holding several "
+             "distinct values but no digest (unique events only) the property defines no centroids - the theorem states what the code does "
+             "(implicit centroid at min), the oracle does not judge it (counted as oracle.centroids-unspecified)."),
     "design_ref": "DESIGN.md §6 C02",
 }
